@@ -455,7 +455,7 @@ def emit(c, ref, res):
     wf = ''
     if not isinstance(ref, str):
         body = [t for t in content(ref) if t[0] != 'COMMENT']
-        dd = any(a == ('OP', '.') and b == ('OP', '.') for a, b in zip(body, body[1:]))
+        dd = any(a == ('OP', '.') and b[1].startswith('.') for a, b in zip(body, body[1:]))
         wf = ' && c13_wf %s %s %s' % (cs(c['s']), common.coq_bool(ops_safe_py(ref)), common.coq_bool(dd))
     return 'c13_lex %s %s && c13_fun %s %s %s %s %s %s %s%s' % (
         cs(c['s']), exp, cs(c['s']), m, cs(c['a']), cs(c['b']),
